@@ -54,12 +54,17 @@ static std::set<std::size_t> parse_set(const std::string &t) {
 static Case gen_c17() {
     Case c;
     c.entry = "SpVecGF2";
-    int d = coin(15) ? pick(1, 3) : pick(1, 70);
+    int dc = pick(0, 99);
+    int d = dc < 12 ? pick(1, 3) : dc < 80 ? pick(1, 70) : dc < 93 ? pick(71, 600) : pick(601, 5000);
     c.extra.push_back("dim " + std::to_string(d));
-    int len = pick(1, 60);
+    static const char *uts[] = {"size_t", "size_t", "unsigned", "int", "ushort"};
+    c.wtype = uts[pick(0, 4)];   // index type U of SpVecGF2<U>
+    int len = coin(10) ? pick(61, 300) : pick(1, 60);
+    bool big_sets = coin(20);
     auto rset = [&]() {
         std::set<std::size_t> s;
-        int k = coin(30) ? pick(0, 2) : pick(0, std::min(d, 12));
+        int cap = big_sets ? std::min(d, 200) : std::min(d, 12);
+        int k = coin(30) ? pick(0, 2) : pick(0, cap);
         for (int i = 0; i < k; i++) s.insert((std::size_t) pick(0, d - 1));
         return s;
     };
@@ -83,8 +88,9 @@ static Case gen_c17() {
     return c;
 }
 
-static Verdict check_c17(const Case &c) {
-    typedef parmcb::SpVecGF2<std::size_t> V;
+template <class U>
+static Verdict check_c17_t(const Case &c) {
+    typedef parmcb::SpVecGF2<U> V;
     Stats &S = stats();
     std::string base = "C17/SpVecGF2/history/";
     int d = atoi(c.xval("dim").c_str());
@@ -96,7 +102,8 @@ static Verdict check_c17(const Case &c) {
     Verdict bad;
     auto check_all = [&](const std::string &after) -> bool {
         for (int i = 0; i < NREG; i++) {
-            std::vector<std::size_t> got(R[i].begin(), R[i].end());
+            std::vector<std::size_t> got;
+            for (auto it = R[i].begin(); it != R[i].end(); ++it) got.push_back((std::size_t) *it);
             std::vector<std::size_t> want;
             for (int j = 0; j < d; j++) if (M[i][j]) want.push_back(j);
             for (size_t k = 1; k < got.size(); k++) if (!(got[k - 1] < got[k])) {
@@ -123,14 +130,14 @@ static Verdict check_c17(const Case &c) {
         if (op == "unit") {
             int a; std::size_t j; is >> a >> j;
             if (j >= (std::size_t) d) j = d - 1;
-            R[a] = V(j);
+            R[a] = V((U) j);
             M[a].assign(d, false); M[a][j] = true;
         } else if (op == "set") {
             int a; std::string t; is >> a >> t;
             auto s = parse_set(t);
             std::set<std::size_t> s2;
             for (auto v : s) if (v < (std::size_t) d) s2.insert(v);
-            R[a] = V(s2);
+            { std::set<U> su; for (auto v : s2) su.insert((U) v); R[a] = V(su); }
             M[a].assign(d, false);
             for (auto v : s2) M[a][v] = true;
         } else if (op == "copy") {
@@ -191,7 +198,8 @@ static Verdict check_c17(const Case &c) {
             auto s = parse_set(t);
             int want = 0;
             for (auto v : s) if (v < (std::size_t) d && M[a][v]) want ^= 1;
-            int got = R[a] * s;
+            std::set<U> su; for (auto v : s) su.insert((U) v);
+            int got = R[a] * su;
             if (overlap_add) product_after = true;
             if (got != want) { S.note_case(c, false); return F(base + "dotset", "R" + std::to_string(a) + "*set = " + std::to_string(got) + " expected " + std::to_string(want)); }
         } else {
@@ -200,10 +208,19 @@ static Verdict check_c17(const Case &c) {
         if (!check_all(x)) { S.note_case(c, false); return bad; }
     }
     S.note_case(c, overlap_add && product_after);
+    S.cls("index-type-" + (c.wtype.empty() ? std::string("size_t") : c.wtype));
+    if (d > 70) S.cls("dimension>70");
     if (overlap_add) S.cls("overlapping-add");
     if (product_after) S.cls("product-after-overlapping-add");
     S.cls("ops", nops);
     return Verdict::pass();
+}
+
+static Verdict check_c17(const Case &c) {
+    if (c.wtype == "unsigned") return check_c17_t<unsigned>(c);
+    if (c.wtype == "int") return check_c17_t<int>(c);
+    if (c.wtype == "ushort") return check_c17_t<unsigned short>(c);
+    return check_c17_t<std::size_t>(c);
 }
 
 // =============================================================================== C18
